@@ -26,6 +26,8 @@ func init() {
 			"(environmental, noted in DESIGN.md); timing of the spam loop.",
 		Run: runC13,
 		Mutants: []Mutant{
+			{Name: "entry-dropped-by-service-count", File: "internal/layer2/announcer.go",
+				Old: "\t\tif len(advs) == 1 {\n\t\t\tdelete(a.ips, name)", New: "\t\tif len(a.ips) == 1 {\n\t\t\tdelete(a.ips, name)", Expect: "entry-dropped-only-with-last-advertisement"},
 			{Name: "group-counter-read-by-address", File: "internal/layer2/ndp.go",
 				Old: "\tn.solicitedNodeGroups[group.String()]--\n\tif n.solicitedNodeGroups[group.String()] == 0 {",
 				New: "\tn.solicitedNodeGroups[group.String()]--\n\tif n.solicitedNodeGroups[ip.String()] == 0 {", Expect: "GROUP-REFCOUNT"},
@@ -429,6 +431,22 @@ func c13Refcount(p *chk.Prog, r *chk.Report) {
 				return isRet && len(rt.Results) == 1 && di.IsConstBool(rt.Results[0], true)
 			}, false, isRm)
 			x.Check("DeleteBalancerIP:true-means-removed", posOf(w, di), !w.Found, "", "DeleteBalancerIP can report the address withdrawn while the service's advertisement for it is still stored: "+describe(di, w))
+		}
+		// the service's whole entry goes only with its last advertisement: the count that decides is the one of this
+		// service's advertisements, nothing else (the other addresses of the service stay announced)
+		for _, s := range g.FindPat("delete(RECV.ips, N)", chk.H("N", name)) {
+			last := chk.GSame(g.GPat(true, "len(A) == 1", chk.H("A", advs)), g.GPat(true, "len(A) <= 1", chk.H("A", advs)), g.GPat(false, "len(A) > 1", chk.H("A", advs)),
+				g.GPat(true, "len(A) < 2", chk.H("A", advs)), g.GPat(false, "len(A) >= 2", chk.H("A", advs)), g.GPat(false, "len(A) != 1", chk.H("A", advs)),
+				g.GPat(true, "len(RECV.ips[N]) == 1", chk.H("N", name)))
+			// ... or the list that remains after the removal is empty
+			rest := chk.GBool(true, func(e ast.Expr) bool {
+				b := di.MatchNew("len(R) == 0", e)
+				if b == nil {
+					return false
+				}
+				return len(g.Find(di.IsAssignPat("RECV.ips[N]", "R", chk.H("N", name), chk.H("R", func(x ast.Expr) bool { return di.SameExpr(x, b["R"]) })))) > 0
+			})
+			x.Check("DeleteBalancerIP:entry-dropped-only-with-last-advertisement", s.Pos(), g.Dominated(s, chk.GOr(last, rest)), "", "the service's whole entry is dropped although it holds other advertisements (the test is not on the number of this service's advertisements): the node stops answering for addresses the service still announces")
 		}
 		x.Check("DeleteBalancerIP:removes-and-decrements-once", di.Pos(), ok, "", "withdrawing one address of a service does not remove exactly that advertisement and decrement its reference count once")
 	}
